@@ -72,7 +72,6 @@ struct State {
     keep_trace: bool,
     outcome: Option<Outcome>,
     /// evidence
-    pub maint_inside_other_op: u64,
     pub switches: u64,
     pub max_backoff_retries: u32,
     pub backoff_events: u64,
@@ -125,7 +124,6 @@ impl Baton {
                 trace: Vec::new(),
                 keep_trace,
                 outcome: None,
-                maint_inside_other_op: 0,
                 switches: 0,
                 max_backoff_retries: 0,
                 backoff_events: 0,
